@@ -35,10 +35,19 @@ Definition find_op (name : string) : option opinfo :=
   let n := str_of_string name in
   List.find (fun oi => str_eqb (oi_var oi) n) op_table.
 
+Definition find_op_s (n : str) : option opinfo :=
+  List.find (fun oi => str_eqb (oi_var oi) n) op_table.
+
 Definition unknown_op : op := mk_op (str_of_string "?UNKNOWN") [] 0 0 false.
 
 Definition table_op (name : string) (val : str) : op :=
   match find_op name with
+  | Some oi => mk_op (oi_type oi) val (oi_nargs oi) (oi_prec oi) false
+  | None => unknown_op
+  end.
+
+Definition table_op_s (n : str) (val : str) : op :=
+  match find_op_s n with
   | Some oi => mk_op (oi_type oi) val (oi_nargs oi) (oi_prec oi) false
   | None => unknown_op
   end.
